@@ -261,18 +261,15 @@ def const_value(node, default=None):
 
 
 def walk_no_nested(node):
-    """ast.walk that does not descend into nested function/class definitions
-    (but yields the root even if it is a def)"""
+    """pre-order (source order) walk that does not descend into nested
+    function/class definitions (but yields the root even if it is a def)"""
     todo = [node]
-    first = True
     while todo:
         n = todo.pop()
         yield n
-        for c in ast.iter_child_nodes(n):
-            if isinstance(c, (ast.FunctionDef, ast.AsyncFunctionDef, ast.ClassDef, ast.Lambda)):
-                continue
-            todo.append(c)
-        first = False
+        kids = [c for c in ast.iter_child_nodes(n)
+                if not isinstance(c, (ast.FunctionDef, ast.AsyncFunctionDef, ast.ClassDef, ast.Lambda))]
+        todo.extend(reversed(kids))
 
 
 # --------------------------------------------------------------------------
